@@ -95,6 +95,29 @@ def generate(template_path, repo, out_name):
         dropped = []
         # comments carry no semantics: removed (newlines kept) so that rewrite patterns and anchors do not depend on them
         text = X.strip_comments_keep_lines(body)
+        # captures: names of locals that the unit must refer to (e.g. a carried accumulator) are read off the body by a
+        # structural pattern instead of being hard-wired, so that renaming a local does not break the extraction;
+        # ${NAME} is then replaced in every string of the directive
+        if t.get('captures'):
+            caps = {}
+            for nm, rx in t['captures']:
+                ms = list(re.finditer(rx, text))
+                if len(ms) != 1:
+                    raise X.ExtractionBroken('%s: capture %s matched %d times' % (what, nm, len(ms)))
+                caps[nm] = ms[0].group(1)
+
+            def subst(v):
+                if isinstance(v, str):
+                    for nm, val in caps.items():
+                        v = v.replace('${%s}' % nm, val)
+                    return v
+                if isinstance(v, list):
+                    return [subst(x) for x in v]
+                if isinstance(v, dict):
+                    return {k: subst(x) for k, x in v.items()}
+                return v
+            t = subst({k: v for k, v in t.items() if k != 'captures'})
+            log.append({'rule': 'captures %s' % caps, 'fired': len(caps), 'must': '1+'})
         # optional slice: keep only the text between two anchors inside the body
         if 'slice_from' in t or 'slice_to' in t:
             a, b = 1, len(text) - 1
